@@ -131,6 +131,22 @@ def check(prog, rep):
                 rep.ob("R15.2", f"{label}[{k}]", False, f"{r.name} has its own arm for {k} but {i.name} handles it in the arm for {ai.kinds}: the deep-tree path treats {k} nodes differently from the shallow path", loc=f"{i.module.rel}:{ai.lineno}", detail="leaf")
                 continue
             a, b = _leaf_sig(ar, dr.subject), _leaf_sig(ai, di.subject)
+            if a != b:
+                # positive contradictions between two arms that are both plain code (no helper decides anything):
+                pa, pb = _leaf_parts(ar, dr.subject), _leaf_parts(ai, di.subject)
+                why = None
+                if pa["plain"] and pb["plain"]:
+                    if k == "Parameter" and ("value" in pa["build"]) != ("value" in pb["build"]) and ("value" in pa["call"]) != ("value" in pb["call"]):
+                        late, early = (r.name, i.name) if "value" in pa["call"] else (i.name, r.name)
+                        why = f"{late} reads the parameter's value when the compiled callable runs, {early} reads it while building: the same formula honours Parameter.set() on one path and ignores it on the other"
+                    elif k == "Variable" and pa["identity"] != pb["identity"]:
+                        byid, byname = (r.name, i.name) if pa["identity"] else (i.name, r.name)
+                        why = f"{byid} decides `is this the variable?` by object identity, {byname} by name: for two Variable objects of one name the answer depends on which walker the tree's depth selects"
+                    elif sorted(map(repr, pa["consts"])) != sorted(map(repr, pb["consts"])) and pa["consts"] and pb["consts"] and len(pa["consts"]) == len(pb["consts"]):
+                        why = f"{r.name} answers with constants {pa['consts']}, {i.name} with {pb['consts']} for a {k} leaf"
+                if why:
+                    rep.ob("R15.2", f"{label}[{k}]", False, why, loc=f"{i.module.rel}:{ai.lineno}", detail="leaf-contradiction", robust=True)
+                    continue
             rep.ob("R15.2", f"{label}[{k}]", a == b, f"both siblings treat {k} leaves alike ({a[:60]})" if a == b else f"the siblings treat {k} leaves differently: {r.name}: {a[:70]}  vs  {i.name}: {b[:70]}", loc=f"{i.module.rel}:{ai.lineno}", detail="leaf")
 
     # ------------------------------------------------------------------ R15.2 siblings consult the same node state
@@ -307,6 +323,40 @@ def _leaf_sig(arm, subj):
             if isinstance(n, ast.Call) and dotted(n.func) == "Constant" and n.args and isinstance(n.args[0], ast.Constant):
                 consts.append(n.args[0].value)
     return f"build-time reads {sorted(build)}, call-time reads {sorted(call_time)}, tests {sorted(cmps)}, constants {consts}"
+
+
+def _leaf_parts(arm, subj):
+    """Facts about a leaf arm for the contradiction rules: attributes of the node read while building / inside the
+    closure, whether the node is compared by identity, constants produced, and whether the arm is plain code (every
+    call is a constructor, a builtin or a container method -- nothing is decided elsewhere)."""
+    lam_nodes = {id(x) for st in arm.body for n in ast.walk(st) if isinstance(n, ast.Lambda) for x in ast.walk(n.body)}
+    aliases = {subj}
+    for st in arm.body:
+        for n in ast.walk(st):
+            if isinstance(n, ast.Assign) and isinstance(n.targets[0], ast.Name) and isinstance(n.value, ast.Name) and n.value.id in aliases:
+                aliases.add(n.targets[0].id)
+    lam_bound = {arg.arg for st in arm.body for n in ast.walk(st) if isinstance(n, ast.Lambda) for arg, dv in zip(n.args.args[::-1], n.args.defaults[::-1]) if isinstance(dv, ast.Name) and dv.id in aliases}
+    build, call, consts = set(), set(), []
+    identity = False
+    plain = True
+    for st in arm.body:
+        for n in ast.walk(st):
+            if isinstance(n, ast.Attribute) and isinstance(n.value, ast.Name):
+                if n.value.id in aliases and id(n) not in lam_nodes:
+                    build.add(n.attr)
+                if id(n) in lam_nodes and (n.value.id in lam_bound or n.value.id in aliases):
+                    call.add(n.attr)
+            if isinstance(n, ast.Compare) and isinstance(n.ops[0], (ast.Is, ast.IsNot)) and any(isinstance(x, ast.Name) and x.id in aliases for x in [n.left, n.comparators[0]]):
+                identity = True
+            if isinstance(n, ast.Call):
+                d = dotted(n.func) or ""
+                if d == "Constant" and n.args and isinstance(n.args[0], ast.Constant):
+                    consts.append(n.args[0].value)
+                if not (d in ("Constant", "float", "int", "isinstance", "len") or (isinstance(n.func, ast.Attribute) and n.func.attr in ("append", "pop", "get", "extend"))):
+                    plain = False
+            if isinstance(n, (ast.FunctionDef, ast.Try, ast.With)):
+                plain = False
+    return {"build": build, "call": call, "identity": identity, "consts": consts, "plain": plain}
 
 
 def registered_gradient_kinds(prog):
